@@ -415,7 +415,10 @@ def _nexus_matrix_block(draw, labels, label_texts, ntax_declared_before, fancy, 
                        draw(_seq_text(chunk, data_type, gaps=fancy)) + "\n"
             if b < len(widths) - 1 and draw(st.booleans()):
                 out += "\n"
-        out += "  ;\n"
+        if draw(st.integers(0, 3)) == 0:
+            out = out[:-1] + draw(st.sampled_from([";\n", " ;\n"]))    # terminator on the last sequence's line
+        else:
+            out += "  ;\n"
     else:
         for r in order:
             out += "    " + label_texts[r] + draw(st.sampled_from([" ", "  ", "\t", "\n      "])) + \
@@ -744,21 +747,17 @@ SOUP_TOKENS = {
 }
 
 
+EDIT_OPS = ("del", "delspan", "deltok", "ins", "rep", "kw", "dupspan", "delunit", "dupunit", "moveunit")
+
+
 def edits(max_edits=2):
-    """1..max_edits local edits; positions are reduced modulo the text length when applied."""
+    """1..max_edits local edits {"op", "pos", "n", "c", "to"}; positions are reduced modulo the text length when
+    applied; ops: delete char / span / token, insert or replace a char of the format's alphabet, insert a keyword,
+    duplicate a span, delete / duplicate / move a whole unit (statement up to ';' for NEXUS and Newick, line for
+    PHYLIP and FASTA)."""
     pos = st.integers(0, 4000)
-    one = st.one_of(
-        st.fixed_dictionaries({"op": st.just("del"), "pos": pos}),
-        st.fixed_dictionaries({"op": st.just("delspan"), "pos": pos, "n": st.integers(2, 40)}),
-        st.fixed_dictionaries({"op": st.just("ins"), "pos": pos, "c": st.integers(0, 200)}),
-        st.fixed_dictionaries({"op": st.just("rep"), "pos": pos, "c": st.integers(0, 200)}),
-        st.fixed_dictionaries({"op": st.just("kw"), "pos": pos, "c": st.integers(0, 200)}),
-        st.fixed_dictionaries({"op": st.just("deltok"), "pos": pos}),
-        st.fixed_dictionaries({"op": st.just("dupspan"), "pos": pos, "n": st.integers(1, 30)}),
-        st.fixed_dictionaries({"op": st.just("delunit"), "pos": pos}),
-        st.fixed_dictionaries({"op": st.just("dupunit"), "pos": pos}),
-        st.fixed_dictionaries({"op": st.just("moveunit"), "pos": pos, "to": pos}),
-    )
+    one = st.fixed_dictionaries({"op": st.sampled_from(EDIT_OPS), "pos": pos, "n": st.integers(1, 40),
+                                 "c": st.integers(0, 200), "to": pos})
     return st.lists(one, min_size=1, max_size=max_edits)
 
 
@@ -917,6 +916,11 @@ def nexus_statement_soups(draw, max_statements=3):
     elif k < 7:
         out += "BEGIN TAXA;\n" + "".join(stmts("TAXA", 1)) + end()
     blocks = draw(st.lists(st.sampled_from(["M", "M", "S", "S", "T", "T", "X"]), min_size=1, max_size=4))
+    if draw(st.integers(0, 3)) > 0:
+        # usually a matrix first: SETS statements need one
+        blocks = sorted(blocks, key=lambda b: b != "M")
+        if "S" in blocks and "M" not in blocks:
+            blocks = ["M"] + blocks
     for b in blocks:
         if b == "M":
             kind = draw(st.sampled_from(["DATA", "CHARACTERS"]))
@@ -925,11 +929,22 @@ def nexus_statement_soups(draw, max_statements=3):
                 out += "  TITLE %s;\n" % draw(st.sampled_from(_W))
             out += "".join(stmts(kind)[:1]) if draw(st.integers(0, 3)) == 0 else ""
             out += "  DIMENSIONS NTAX=2 NCHAR=3;\n"
-            items = draw(st.lists(st.sampled_from(_FORMAT_ITEMS[:5] * 3 + _FORMAT_ITEMS), min_size=0, max_size=3))
+            mode = draw(st.sampled_from(["dna", "dna", "dna", "std", "any"]))
+            items = draw(st.lists(st.sampled_from(_FORMAT_ITEMS), min_size=0, max_size=4)) if mode == "any" else \
+                draw(st.sampled_from([[], [], [], ["GAP=-"], ["MISSING=?"]] + [[i] for i in _FORMAT_ITEMS]))
+            if mode != "any" and draw(st.integers(0, 2)) > 0:
+                items = [i for i in items if not i.startswith(("DATATYPE", "INTERLEAVE"))]
+            if mode == "dna":
+                items = ["DATATYPE=DNA"] + items
+                seqs = ["ACG"] * 150 + _ROW_SEQS
+            elif mode == "std":
+                items = draw(st.sampled_from([["DATATYPE=STANDARD"], ["SYMBOLS=\"01\""], []])) + items
+                seqs = ["010"] * 150 + _ROW_SEQS
+            else:
+                seqs = _ROW_SEQS
             out += "  FORMAT %s;\n" % " ".join(items)
-            rows = [(l, draw(st.sampled_from(_ROW_SEQS[:3] * 2 + _ROW_SEQS))) for l in
-                    draw(st.sampled_from([["a", "b"], ["a", "b"], ["a", "b"], ["a", "a"], ["a"], ["a", "b", "c"],
-                                          ["a", "b", "a", "b"]]))]
+            rows = [(l, draw(st.sampled_from(seqs))) for l in
+                    draw(st.sampled_from([["a", "b"]] * 16 + [["a", "a"], ["a"], ["a", "b", "c"], ["a", "b", "a", "b"]]))]
             out += "  MATRIX\n" + "".join("    %s %s\n" % r for r in rows) + "  ;\n"
             out += "".join(stmts(kind)[:1]) if draw(st.integers(0, 3)) == 0 else ""
             out += end()
